@@ -257,6 +257,112 @@ pub fn run(a: &Args, rep: &mut Reporter) {
                 }
             }
         }
+        // ---------- (c) the same single faults on a device that also shortens every transfer: the fault now
+        // arrives after PART of a logical transfer went through (a write_all / read_exact loop in mid-flight)
+        {
+            let kch = *r.pick(&[1usize, 3, 7, 64, 333, 1000]);
+            let wc = || Chunking::Small(kch);
+            let d0 = Dev::empty();
+            d0.set_chunking(wc(), wc());
+            d0.set_record(true, false);
+            let runc = run_scene(&scene, d0.clone(), Judge::Conforming);
+            let n_ops = d0.ops_done();
+            let ops_c = d0.take_ops();
+            if runc.finalized && d0.bytes() == base_bytes && n_ops > 0 {
+                let budget: u64 = if a.thorough() { 400 } else { 48 };
+                let stride = (n_ops / budget).max(1);
+                let mut k = r.u64() % stride;
+                while k < n_ops {
+                    let op = ops_c.get(k as usize);
+                    let mut fk = kinds[(k as usize + idx as usize) % 2];
+                    if let Some(o) = op {
+                        if o.kind == OpKind::Write && (k / stride) % 3 == 2 {
+                            fk = FaultKind::ShortZero;
+                        }
+                    }
+                    let d = Dev::empty();
+                    d.set_chunking(wc(), wc());
+                    d.set_fault(k, fk, false);
+                    let run = run_scene(&scene, d.clone(), Judge::Conforming);
+                    rep.stat("writer_fault_runs", 1);
+                    rep.stat("writer_fault_runs_mid_transfer", 1);
+                    if let Some((_, kind, call)) = d.fail_hit() {
+                        let call_name = run.calls.iter().find(|c| c.no == call).map(|c| c.op.clone()).unwrap_or_else(|| if call == 0 { "(drop)".into() } else { "(add_point)".into() });
+                        cover.hit(&format!("writer-fault-mid-transfer:{:?}:{:?}:{}", kind, fk, call_name.split(' ').next().unwrap_or("?")));
+                        if run.panicked {
+                            rep.violation("C16", &format!("writer/panic/{:?}/{}", kind, call_name), idx, &format!("device {:?} fault ({:?}) at op {} (transfers of at most {} bytes) during {}: the library panicked: {:?}", kind, fk, k, kch, call_name, run.calls.last().and_then(|c| c.panic.clone())));
+                        } else {
+                            if call != 0 {
+                                let rec = run.calls.iter().find(|c| c.no == call);
+                                let returned_err = match rec {
+                                    Some(c) => !c.ok,
+                                    None => run.stopped_on_err,
+                                };
+                                if !returned_err {
+                                    rep.violation("C16", &format!("writer/error-swallowed/{:?}/{}", kind, call_name.split(' ').next().unwrap_or("?")), idx, &format!("device fault ({:?}) at device op {} (transfers of at most {} bytes) during public call '{}' but the call returned Ok; program {:?}", fk, k, kch, call_name, calls_desc));
+                                } else {
+                                    rep.stat("writer_calls_returned_err", 1);
+                                }
+                            } else {
+                                rep.stat("writer_fault_in_drop_exempt", 1);
+                            }
+                            if run.finalized && d.bytes() != base_bytes {
+                                rep.violation("C16", &format!("writer/finalize-ok-but-incomplete/{:?}", kind), idx, &format!("fault at op {} ({:?}, transfers of at most {} bytes) in call '{}': top-level finalize returned Ok but the device image differs from the complete file", k, fk, kch, call_name));
+                            }
+                        }
+                    } else {
+                        rep.stat("writer_fault_not_reached", 1);
+                    }
+                    k += stride;
+                }
+            }
+            // reader side
+            let rd0 = Dev::new(base_bytes.clone());
+            rd0.set_chunking(wc(), Chunking::Full);
+            rd0.set_record(true, false);
+            let base_c = read_suite(rd0.clone(), &extra, 0);
+            let n_rops = rd0.ops_done();
+            if base_c.len() == base_read.len() && base_c.iter().zip(base_read.iter()).all(|((_, x, _), (_, y, _))| x == y) && n_rops > 0 {
+                let budget: u64 = if a.thorough() { 400 } else { 48 };
+                let stride = (n_rops / budget).max(1);
+                let mut k = r.u64() % stride;
+                while k < n_rops {
+                    let fk = kinds[(k as usize + idx as usize) % 2];
+                    let d = Dev::new(base_bytes.clone());
+                    d.set_chunking(wc(), Chunking::Full);
+                    d.set_fault(k, fk, false);
+                    let res = read_suite(d.clone(), &extra, 0);
+                    rep.stat("reader_fault_runs", 1);
+                    rep.stat("reader_fault_runs_mid_transfer", 1);
+                    if let Some((_, kind, call)) = d.fail_hit() {
+                        for (l, r0, c) in &res {
+                            if let Err(e) = r0 {
+                                if e.starts_with("PANIC") {
+                                    rep.violation("C16", &format!("reader/panic/{:?}/{}", kind, l.trim_end_matches(char::is_numeric)), idx, &format!("device fault at read-suite op {} (reads of at most {} bytes): {} panicked: {}", k, kch, l, e));
+                                }
+                            }
+                            if *c == call {
+                                cover.hit(&format!("reader-fault-mid-transfer:{:?}:{}", kind, l.trim_end_matches(char::is_numeric)));
+                                if r0.is_ok() {
+                                    rep.violation("C16", &format!("reader/error-swallowed/{:?}/{}", kind, l.trim_end_matches(char::is_numeric)), idx, &format!("device {:?} fault ({:?}) at device op {} (reads of at most {} bytes) during '{}' but the operation returned Ok", kind, fk, k, kch, l));
+                                } else {
+                                    rep.stat("reader_calls_returned_err", 1);
+                                }
+                            } else if *c < call {
+                                if let Some((_, b, _)) = base_read.iter().find(|(bl, _, _)| bl == l) {
+                                    if r0 != b {
+                                        rep.violation("C16", "reader/earlier-result-differs", idx, &format!("{} (before the fault) differs from the fault-free result", l));
+                                    }
+                                }
+                            }
+                        }
+                    } else {
+                        rep.stat("reader_fault_not_reached", 1);
+                    }
+                    k += stride;
+                }
+            }
+        }
         // ---------- (b) reader: one fault at every device operation of the read suite
         for k in 0..read_total_ops {
             for fk in [kinds[(k as usize + idx as usize) % 2]] {
